@@ -39,13 +39,16 @@ def wcfg_text(maxcalls, family):
 
 
 def plans(ctx):
-    """(label, maxlen, family, lead, simulate, depth, cap on distinct()-bearing states)"""
+    """(label, maxlen, family, lead, simulate, depth, cap on distinct()-bearing states, cap on replayed states)"""
     if ctx.tier == "quick":
-        return [("hand-lead2", 2, "hand", "label", None, None, 0), ("hand-all1", 1, "hand", "all", None, None, 4),
-                ("gen-lead1", 1, "gen", "label", None, None, 0)]
-    return [("hand-all2", 2, "hand", "all", None, None, 120), ("hand-lead3", 3, "hand", "label", None, None, 40),
-            ("gen-lead2", 2, "gen", "label", None, None, 20), ("gen-all1", 1, "gen", "all", None, None, 20),
-            ("hand-sim", 6, "hand", "all", "num=3000", 7, 20)]
+        ps = [("hand-lead2", 2, "hand", "label", None, None, 0, None), ("hand-all1", 1, "hand", "all", None, None, 4, None),
+              ("gen-lead1", 1, "gen", "label", None, None, 0, None)]
+    else:
+        ps = [("hand-all2", 2, "hand", "all", None, None, 100, None), ("hand-lead3", 3, "hand", "label2", None, None, 30, None),
+              ("gen-lead2", 2, "gen", "label", None, None, 10, 20000), ("gen-all1", 1, "gen", "all", None, None, 10, 12000),
+              ("hand-sim", 6, "hand", "all", "num=1500", 7, 10, None)]
+    only = os.environ.get("VERIF_C15_PLANS")   # debugging aid: comma-separated plan labels
+    return [p for p in ps if not only or p[0] in only.split(",")]
 
 
 # ---------------------------------------------------------------- edge-id normalisation
@@ -227,10 +230,10 @@ def learn(ctx, tag, worlds, graphs):
     return maps
 
 
-def reattribute(ctx, label, worlds, graphs, states, reqs, maps, mini, outs, repeats=3):
+def reattribute(ctx, label, worlds, graphs, states, reqs, maps, mini, outs, repeats=40):
     """A minimal failing program P+[s] blames s only if P reliably passes: the proper prefixes of every minimal failing
     program are run again a few times on the driver, and a prefix that fails then takes the blame (the driver iterates
-    Go maps, so some of its defects show only in some runs)."""
+    Go maps when a graph is built, so some of its defects show only for some builds: each re-run builds the graph anew)."""
     key = lambda g, prog: json.dumps([g, prog], sort_keys=True)
     index = {key(s["g"], s["prog"]): i for i, s in enumerate(states)}
     prefixes = {}
@@ -244,9 +247,9 @@ def reattribute(ctx, label, worlds, graphs, states, reqs, maps, mini, outs, repe
     if not todo:
         return mini, outs
     rr, owner = [], []
-    for _ in range(repeats):
+    for _ in range(min(repeats, max(8, 6000 // len(todo)))):
         for j in todo:
-            rr.append(dict(reqs[j], i=len(rr), only="gripper"))
+            rr.append(dict(reqs[j], i=len(rr), only="gripper", fresh=True))
             owner.append(j)
     again = run_harness(ctx, label + "_prefixes", worlds, graphs, rr)
     failing = {}
@@ -268,7 +271,7 @@ def reattribute(ctx, label, worlds, graphs, states, reqs, maps, mini, outs, repe
     return out_mini, outs
 
 
-def traversal_part(ctx, trav, label, maxlen, family, lead, sim, depth, cap, totals):
+def traversal_part(ctx, trav, label, maxlen, family, lead, sim, depth, cap, maxstates, totals):
     res = ctx.tlc("gripper", "GripperTraversal", "GT.cfg", workers=WORKERS, simulate=sim, depth=depth, timeout=900,
                   files={"Traversal.tla": trav, "GT.cfg": cfg_text(maxlen, family, lead)}, label=label)
     worlds, graphs = res.msgs["worlds"][0], res.msgs["graphs"][0]
@@ -281,6 +284,14 @@ def traversal_part(ctx, trav, label, maxlen, family, lead, sim, depth, cap, tota
     if not states:
         raise Inconclusive("TLC emitted no states for %s" % label)
     states = thin_heavy(ctx, states, cap, label)
+    if maxstates and len(states) > maxstates:
+        # keep every program of up to 2 statements, a seeded sample of the longer ones (with their prefixes' verdicts
+        # still available for attribution where sampled)
+        short = [s for s in states if len(s["prog"]) <= 2]
+        rest = [s for s in states if len(s["prog"]) > 2]
+        ctx.rng.shuffle(rest)
+        ctx.notes.append("%s: %d of %d states replayed (seeded sample of the programs longer than 2 statements)" % (label, maxstates, len(states)))
+        states = short + rest[: max(0, maxstates - len(short))]
     if os.environ.get("VERIF_C15_SELFTEST") == "corrupt-spec":   # binding self-test: falsify one expected row
         victim = next(s for s in states if s["status"] == "ok" and s["rows"] and s["rows"][0]["o"].get("k") == "v")
         victim["rows"][0]["o"]["label"] += "-corrupted"
@@ -400,8 +411,8 @@ def writes_part(ctx, family, totals):
 def run(ctx):
     trav = trav_text()
     totals = dict(states=0, nontriv=0, bad=0, worlds=0, writes=0, lead=0)
-    for label, maxlen, family, lead, sim, depth, cap in plans(ctx):
-        traversal_part(ctx, trav, label, maxlen, family, lead, sim, depth, cap, totals)
+    for label, maxlen, family, lead, sim, depth, cap, maxstates in plans(ctx):
+        traversal_part(ctx, trav, label, maxlen, family, lead, sim, depth, cap, maxstates, totals)
     writes_part(ctx, "hand", totals)
     if ctx.tier != "quick":
         writes_part(ctx, "gen", totals)
